@@ -55,6 +55,7 @@ def case_strategy(draw, tier="quick"):
     actions = draw(st.lists(st.one_of(*acts), min_size=lo, max_size=40))
     return {"nparts": nparts, "max_batch": draw(st.integers(1, 4)),
             "reset": draw(st.sampled_from(["earliest", "earliest", "latest"])),
+            "autocommit": draw(st.sampled_from([None, None, "true", "false", True])),
             "refresh": refresh, "pre": draw(st.lists(st.tuples(st.integers(0, 3), st.integers(1, 4)),
                                                       max_size=3)),
             "actions": [list(a) for a in actions]}
@@ -76,6 +77,9 @@ class Incarnation:
         self.cons = Consumer(self.log, 0, "fut")
         params = {"bootstrap.servers": "fake", "group.id": "g",
                   "auto.offset.reset": self.case["reset"]}
+        if self.case.get("autocommit") is not None:
+            # whatever the caller asks for, streamz must force auto-commit off
+            params["enable.auto.commit"] = self.case["autocommit"]
         self.source = Stream.from_kafka_batched(
             TOPIC, params, poll_interval="1s", max_batch_size=self.case["max_batch"],
             refresh_partitions=self.case["refresh"], asynchronous=True, loop=IOLoop.current())
